@@ -198,6 +198,11 @@ pub fn cmd_progs(o: &Opts) -> Result<(), String> {
         m.insert("pat".into(), json!(ascii(&pat)));
         m.insert("prog".into(), json!(body));
         m.insert("ns".into(), json!(n_saves(&prog)));
+        // the tree the real parser built (flattened concatenations, dropped empties), for the drift report
+        if let Ok(raw) = Expr::parse_tree(&pat) {
+            let mut g = 0;
+            m.insert("parsed".into(), abstract_expr(&raw.expr, &mut g));
+        }
         writeln!(f, "{}", rec).map_err(|e| e.to_string())?;
     }
     Ok(())
